@@ -7,6 +7,12 @@ case families (every operator pair/unary/postfix combination in four expression 
 statement kind with every body form, modifiers, types, ...); TLC prints them, the harness renders each
 under 4 layouts (blank-separated, minimal, one token per line, comments between all tokens) and requires
 both parse entry points to report no diagnostic.
+
+Design level (spec/gramrefine/GramRefine.tla): the composition of the machine specs of the front end -
+text -> Lexer -> TokenTable -> ToInput -> Grammar -> event::process - is model-checked by TLC against the same
+reference programs: no lexical diagnostic, no error event, normal return, all tokens consumed, one balanced tree
+(invariant C04_Model; the known finding C04-assignment-binary-rhs is a named deviation Dev_AssignBinaryRhs).  The
+machine specs are bound to the code by the replays of C14 (MCLexer) and C01 (MCGrammar).
 """
 import os, sys
 sys.path.insert(0, os.path.dirname(os.path.abspath(__file__)))
@@ -31,7 +37,12 @@ def main():
             continue
         seen.add(key)
         c.report({"kind": f["kind"], "family": fam, "sig": f["sig"], "what": f["what"] + f" [{f['sig']}]", "text": f["text"], "layout": f["layout"], "detail": f["detail"]})
-    c.cov.update({"states": len(cases), "transitions": out["runs"], "traces_validated_against_impl": out["runs"], "exhaustive": True,
+    gr = run_tlc("gramrefine", "GramRefine", "GramRefine.cfg" if c.quick else "GramRefine_thorough.cfg", workers=4, timeout=6000, xss="1g", xmx="12g",
+                 lib=["grammar", "lexer", "pgrammar", "events"], cache_key="v1", keep_tags=set())
+    if not gr.ok:
+        c.tool_error(f"GramRefine: the front-end machine specs do not accept the reference programs: {gr.violated or gr.error_text} {gr.raw_tail[-800:]}")
+    c.cov["design_level"] = {"module": "GramRefine", "invariant": "C04_Model", "programs": gr.distinct}
+    c.cov.update({"states": len(cases) + gr.distinct, "transitions": out["runs"], "traces_validated_against_impl": out["runs"], "exhaustive": True,
                   "cases": len(cases), "renderings_parsed": out["runs"], "families": counts})
     for i in (5, len(cases) // 2, len(cases) - 7):
         c.sample({"sig": cases[i]["sig"], "tokens": " ".join(cases[i]["toks"])[:200]})
